@@ -65,3 +65,71 @@ def cond3(cond, atom_value, skip=lambda t: False):
     if all(v is True for v in vals):
         return True
     return None
+
+
+NEG = {'<': '>=', '<=': '>', '>': '<=', '>=': '<', '==': '!=', '!=': '==',
+       'is': 'is not', 'is not': 'is', 'in': 'not in', 'not in': 'in'}
+FLIP = {'<': '>', '<=': '>=', '>': '<', '>=': '<=', '==': '==', '!=': '!='}
+
+
+def nnf(t, neg=False):
+    """Negation normal form over not / and / or / numpy.logical_* / cmp.
+    Returns ('or', [..]) / ('and', [..]) / ('atom', cmp-term or other term)."""
+    k = t[0]
+    if k == 'un' and t[1] == 'not':
+        return nnf(t[2], not neg)
+    if k == 'call' and t[1] == 'numpy.logical_not' and len(t[2]) == 1:
+        return nnf(t[2][0], not neg)
+    if k == 'bool' or (k == 'call' and t[1] in ('numpy.logical_or',
+                                                 'numpy.logical_and')):
+        if k == 'bool':
+            op, items = t[1], t[2]
+        else:
+            op, items = ('or' if t[1].endswith('or') else 'and'), t[2]
+        if neg:
+            op = 'and' if op == 'or' else 'or'
+        parts = [nnf(x, neg) for x in items]
+        flat = []
+        for p in parts:
+            if p[0] == op:
+                flat.extend(p[1])
+            else:
+                flat.append(p)
+        return (op, flat)
+    if k == 'bin' and t[1] in ('|', '&'):
+        op = 'or' if t[1] == '|' else 'and'
+        if neg:
+            op = 'and' if op == 'or' else 'or'
+        parts = [nnf(t[2], neg), nnf(t[3], neg)]
+        flat = []
+        for p in parts:
+            if p[0] == op:
+                flat.extend(p[1])
+            else:
+                flat.append(p)
+        return (op, flat)
+    if k == 'cmp':
+        op = NEG[t[1]] if neg else t[1]
+        return ('atom', ('cmp', op, t[2], t[3]))
+    return ('atom', ('un', 'not', t) if neg else t)
+
+
+def disjunction_atoms(t, var):
+    """If t is (after NNF) a disjunction of comparisons of `var` with other
+    terms, return frozenset{(op, other)} with var on the left; else None."""
+    f = nnf(t)
+    items = f[1] if f[0] == 'or' else [f] if f[0] == 'atom' else None
+    if items is None:
+        return None
+    out = set()
+    for it in items:
+        if it[0] != 'atom' or it[1][0] != 'cmp':
+            return None
+        _, op, a, b = it[1]
+        if a == var and op in FLIP:
+            out.add((op, b))
+        elif b == var and op in FLIP:
+            out.add((FLIP[op], a))
+        else:
+            return None
+    return frozenset(out)
